@@ -74,6 +74,86 @@ impl<P: SWCurveConfig> HG for Projective<P> {
     fn aff(&self) -> Affine<P> { self.into_affine() }
 }
 
+/// A group type whose `NEGATION_IS_CHEAP` is `false` (no shipped group has one): the short-Weierstrass projective
+/// group behind a newtype with `MulBase = Self` (as `PairingOutput` does) and every `VariableBaseMSM` method left at
+/// its trait default.  Reaches the plain-bucket branch of the public `msm_bigint` and the trait-default `msm`.
+pub struct SlowG<P: SWCurveConfig>(pub Projective<P>);
+impl<P: SWCurveConfig> Clone for SlowG<P> { fn clone(&self) -> Self { *self } }
+impl<P: SWCurveConfig> Copy for SlowG<P> {}
+impl<P: SWCurveConfig> PartialEq for SlowG<P> { fn eq(&self, o: &Self) -> bool { self.0 == o.0 } }
+impl<P: SWCurveConfig> Eq for SlowG<P> {}
+impl<P: SWCurveConfig> core::hash::Hash for SlowG<P> { fn hash<H: core::hash::Hasher>(&self, h: &mut H) { self.0.hash(h) } }
+impl<P: SWCurveConfig> core::fmt::Debug for SlowG<P> { fn fmt(&self, f: &mut core::fmt::Formatter<'_>) -> core::fmt::Result { write!(f, "{:?}", self.0) } }
+impl<P: SWCurveConfig> Default for SlowG<P> { fn default() -> Self { SlowG(Projective::<P>::default()) } }
+mod slow_impls {
+    use super::SlowG;
+    use ark_ec::{short_weierstrass::{Projective, SWCurveConfig}, PrimeGroup, ScalarMul, VariableBaseMSM};
+    use ark_ff::{AdditiveGroup, Zero};
+    use ark_serialize::{CanonicalDeserialize, CanonicalSerialize, Compress, SerializationError, Valid, Validate};
+    use ark_std::rand::{distributions::{Distribution, Standard}, Rng};
+    use core::ops::{Add, AddAssign, Mul, MulAssign, Neg, Sub, SubAssign};
+    impl<P: SWCurveConfig> core::fmt::Display for SlowG<P> {
+        fn fmt(&self, f: &mut core::fmt::Formatter<'_>) -> core::fmt::Result { write!(f, "{}", self.0) }
+    }
+    impl<P: SWCurveConfig> zeroize::Zeroize for SlowG<P> { fn zeroize(&mut self) { self.0.zeroize() } }
+    impl<P: SWCurveConfig> Zero for SlowG<P> {
+        fn zero() -> Self { SlowG(Projective::<P>::zero()) }
+        fn is_zero(&self) -> bool { self.0.is_zero() }
+    }
+    impl<P: SWCurveConfig> Neg for SlowG<P> { type Output = Self; fn neg(self) -> Self { SlowG(-self.0) } }
+    macro_rules! bin {
+        ($tr:ident, $f:ident, $tra:ident, $fa:ident, $rhs:ty) => {
+            impl<'a, P: SWCurveConfig> $tr<$rhs> for SlowG<P> { type Output = Self; fn $f(self, o: $rhs) -> Self { SlowG(self.0.$f(o.0)) } }
+            impl<'a, P: SWCurveConfig> $tra<$rhs> for SlowG<P> { fn $fa(&mut self, o: $rhs) { self.0.$fa(o.0) } }
+        };
+    }
+    bin!(Add, add, AddAssign, add_assign, SlowG<P>);
+    bin!(Add, add, AddAssign, add_assign, &'a SlowG<P>);
+    bin!(Add, add, AddAssign, add_assign, &'a mut SlowG<P>);
+    bin!(Sub, sub, SubAssign, sub_assign, SlowG<P>);
+    bin!(Sub, sub, SubAssign, sub_assign, &'a SlowG<P>);
+    bin!(Sub, sub, SubAssign, sub_assign, &'a mut SlowG<P>);
+    impl<P: SWCurveConfig, T: core::borrow::Borrow<P::ScalarField>> Mul<T> for SlowG<P> { type Output = Self; fn mul(self, o: T) -> Self { SlowG(self.0 * *o.borrow()) } }
+    impl<P: SWCurveConfig, T: core::borrow::Borrow<P::ScalarField>> MulAssign<T> for SlowG<P> { fn mul_assign(&mut self, o: T) { self.0 *= *o.borrow() } }
+    impl<P: SWCurveConfig> core::iter::Sum<Self> for SlowG<P> { fn sum<I: Iterator<Item = Self>>(i: I) -> Self { i.fold(Self::zero(), |a, b| a + b) } }
+    impl<'a, P: SWCurveConfig> core::iter::Sum<&'a Self> for SlowG<P> { fn sum<I: Iterator<Item = &'a Self>>(i: I) -> Self { i.fold(Self::zero(), |a, b| a + b) } }
+    impl<P: SWCurveConfig> CanonicalSerialize for SlowG<P> {
+        fn serialize_with_mode<W: ark_serialize::Write>(&self, w: W, c: Compress) -> Result<(), SerializationError> { self.0.serialize_with_mode(w, c) }
+        fn serialized_size(&self, c: Compress) -> usize { self.0.serialized_size(c) }
+    }
+    impl<P: SWCurveConfig> Valid for SlowG<P> { fn check(&self) -> Result<(), SerializationError> { self.0.check() } }
+    impl<P: SWCurveConfig> CanonicalDeserialize for SlowG<P> {
+        fn deserialize_with_mode<R: ark_serialize::Read>(r: R, c: Compress, v: Validate) -> Result<Self, SerializationError> {
+            Projective::<P>::deserialize_with_mode(r, c, v).map(SlowG)
+        }
+    }
+    impl<P: SWCurveConfig> Distribution<SlowG<P>> for Standard {
+        fn sample<R: Rng + ?Sized>(&self, rng: &mut R) -> SlowG<P> { SlowG(<Standard as Distribution<Projective<P>>>::sample(self, rng)) }
+    }
+    impl<P: SWCurveConfig> AdditiveGroup for SlowG<P> {
+        type Scalar = P::ScalarField;
+        const ZERO: Self = SlowG(<Projective<P> as AdditiveGroup>::ZERO);
+        fn double_in_place(&mut self) -> &mut Self { self.0.double_in_place(); self }
+    }
+    impl<P: SWCurveConfig> PrimeGroup for SlowG<P> {
+        type ScalarField = P::ScalarField;
+        fn generator() -> Self { SlowG(Projective::<P>::generator()) }
+        fn mul_bigint(&self, other: impl AsRef<[u64]>) -> Self { SlowG(self.0.mul_bigint(other)) }
+    }
+    impl<P: SWCurveConfig> ScalarMul for SlowG<P> {
+        type MulBase = Self;
+        const NEGATION_IS_CHEAP: bool = false;
+        fn batch_convert_to_mul_base(bases: &[Self]) -> Vec<Self> { bases.to_vec() }
+    }
+    impl<P: SWCurveConfig> VariableBaseMSM for SlowG<P> {}
+}
+impl<P: SWCurveConfig> HG for SlowG<P> {
+    type C = P;
+    const NC: &'static str = "0";
+    fn base(a: &Affine<P>) -> Self { SlowG(a.into_group()) }
+    fn aff(&self) -> Affine<P> { self.0.into_affine() }
+}
+
 // ---------------------------------------------------------------- printing
 fn fe<F: PrimeField>(x: &F) -> String { hex_limbs(x.into_bigint().as_ref()) }
 fn pt<P: SWCurveConfig>(a: &Affine<P>) -> String where P::BaseField: PrimeField {
@@ -279,36 +359,43 @@ const LENS_T: &[usize] = &[5, 6, 15, 16, 17, 30, 34, 127, 128, 129, 255, 256, 25
 const MISMATCH: &[(usize, usize)] = &[(0, 1), (1, 0), (0, 5), (5, 0), (1, 2), (2, 1), (2, 3), (3, 2), (7, 9), (31, 32), (32, 31),
     (32, 33), (33, 32), (31, 40), (40, 31), (33, 100), (100, 33), (64, 65), (65, 64)];
 
-/// the shape suite on one group: every length × base pattern × scalar pattern, mismatched lengths, big integers
-fn shapes<V: HG>(out: &mut Out, rng: &mut Rng, pool: &[Aff<V>], lens: &[usize], reps: usize, toy: bool) where Fq<V>: PrimeField {
+/// the shape suite on one group: every length × base pattern × scalar pattern, mismatched lengths, big integers.
+/// `level` 0 = toy curve (everything), 1 = shipped curve thorough, 2 = shipped curve quick (the driver follows
+/// shipped curves at ≈ 30 µs per affine addition, so the quick tier keeps only a few long vectors there)
+fn shapes<V: HG>(out: &mut Out, rng: &mut Rng, pool: &[Aff<V>], lens: &[usize], reps: usize, level: u8) where Fq<V>: PrimeField {
+    let toy = level == 0;
     for &len in lens {
         for bk in 0..N_BP { for sk in 0..N_SK { for rep in 0..reps {
             if rep > 0 && bk == 2 && sk < 3 { continue; }
-            if !toy && len > 4 && !(bk == 0 && sk == 3 || bk == 3 && sk == 4 || bk == 1 && sk == 2 || bk == 2 && sk == 3 || bk == 0 && sk == 0 || bk == 0 && sk == 1) { continue; }
+            let cheap = sk == 0 || sk == 1 || sk == 5 || bk == 2;      // cheap for the driver: tiny scalars / identity bases
+            if level == 1 && len > 4 && !(bk == 0 && sk == 3 || bk == 3 && sk == 4 || bk == 1 && sk == 2 || bk == 2 && sk == 3 || bk == 0 && sk == 0 || bk == 0 && sk == 1) { continue; }
+            if level == 2 && len > 4 && !(bk == 3 && sk == 4 || (len <= 33 && bk == 0 && sk == 1)) { continue; }
+            if level == 2 && len <= 4 && !(cheap || bk == 0 && sk == 3 || bk == 3 && sk == 4 || bk == 1 && sk == 2) { continue; }
             let bases = base_pattern(rng, pool, bk, len);
             let scalars = scalar_pattern::<Fr<V>>(rng, sk, len);
             // field entry points: all three on toy curves, rotating on shipped curves
-            let wf = if toy || len <= 2 { 7 } else { 1 << ((bk + sk + rep as u32) % 3) };
+            let wf = if toy || len <= 2 && (level == 1 || cheap) { 7 } else { 1 << ((bk + sk + rep as u32 + len as u32) % 3) };
             e_field::<V>(out, &bases, &scalars, wf);
-            // the two bucket methods on the same input
+            // the two bucket methods on the same input (the public entry points above run the signed-digit method)
             let bigs: Vec<Big<V>> = scalars.iter().map(|s| s.into_bigint()).collect();
-            e_big::<V>(out, &bases, &bigs, if toy || len <= 2 { 6 } else if len > 40 { 2 << ((bk + sk) % 2) } else { 6 });
+            let wb = if toy || len <= 4 && level == 1 { 6 } else if level == 2 && !cheap { 4 } else if len > 40 { 2 << ((bk + sk) % 2) } else { 6 };
+            e_big::<V>(out, &bases, &bigs, wb);
         } } }
         // big integers outside the field
         for bkind in 0..N_BK {
-            if !toy && len > 33 { continue; }
+            if level == 1 && len > 33 || level == 2 && !(len == 1 || len == 2) { continue; }
             let bases = base_pattern(rng, pool, if bkind == 2 { 1 } else { 0 }, len);
             let bigs = big_pattern::<Fr<V>>(rng, bkind, len);
-            e_big::<V>(out, &bases, &bigs, 7);
+            e_big::<V>(out, &bases, &bigs, if level == 2 { 1 | (2 << (bkind % 2)) } else { 7 });
         }
     }
     for &(bl, sl) in MISMATCH {
-        if !toy && bl.max(sl) > 40 { continue; }
+        if level == 1 && bl.max(sl) > 40 || level == 2 && bl.max(sl) > 3 { continue; }
         let bases = base_pattern(rng, pool, 3, bl);
         let scalars = scalar_pattern::<Fr<V>>(rng, 4, sl);
         e_field::<V>(out, &bases, &scalars, 7);
         let bigs = big_pattern::<Fr<V>>(rng, 3, sl);
-        e_big::<V>(out, &bases, &bigs, 7);
+        e_big::<V>(out, &bases, &bigs, if level == 2 { 1 } else { 7 });
     }
 }
 
@@ -372,8 +459,8 @@ fn toy<V: HG>(out: &mut Out, rng: &mut Rng, a: &arkharness::Args, name: &str, or
     assert_eq!(pool.len(), order, "{}: group order", name);
     assert!(pool.contains(&<V::C as SWCurveConfig>::GENERATOR), "{}: generator", name);
     exhaustive::<V>(out, rng, ex_len, ex_cap);
-    shapes::<V>(out, rng, &pool, LENS_Q, if a.thorough { 3 } else { 1 }, true);
-    if a.thorough { shapes::<V>(out, rng, &pool, LENS_T, 1, true); }
+    shapes::<V>(out, rng, &pool, LENS_Q, if a.thorough { 3 } else { 1 }, 0);
+    if a.thorough { shapes::<V>(out, rng, &pool, LENS_T, 1, 0); }
     if hist_len > 0 {
         let g = <V::C as SWCurveConfig>::GENERATOR;
         let q = (g.into_group() + g).into_affine();
@@ -392,7 +479,7 @@ fn toy<V: HG>(out: &mut Out, rng: &mut Rng, a: &arkharness::Args, name: &str, or
 fn real<V: HG>(out: &mut Out, rng: &mut Rng, a: &arkharness::Args, name: &str) where Fq<V>: PrimeField {
     if let Some(o) = &a.only { if o != name { return; } }
     let pool = real_pool::<V::C>(rng, 24);
-    shapes::<V>(out, rng, &pool, if a.thorough { LENS_Q } else { &LENS_Q[..11] }, 1, false);
+    if a.thorough { shapes::<V>(out, rng, &pool, LENS_Q, 1, 1); } else { shapes::<V>(out, rng, &pool, &[0, 1, 2, 3, 4, 31, 32, 33], 1, 2); }
     if a.thorough {
         for &len in &[128usize, 1024] {
             let big_pool = real_pool::<V::C>(rng, len);
@@ -402,7 +489,27 @@ fn real<V: HG>(out: &mut Out, rng: &mut Rng, a: &arkharness::Args, name: &str) w
             e_big::<V>(out, &big_pool[..len], &bigs, 4);
         }
     }
-    random_histories::<V>(out, rng, &pool, if a.thorough { 60 } else { 12 }, 10);
+    random_histories::<V>(out, rng, &pool, if a.thorough { 60 } else { 4 }, if a.thorough { 10 } else { 5 });
+}
+
+/// a few public-entry-point calls on a shipped curve through the NEGATION_IS_CHEAP = false wrapper
+fn real_slow<V: HG>(out: &mut Out, rng: &mut Rng, a: &arkharness::Args, name: &str) where Fq<V>: PrimeField {
+    if let Some(o) = &a.only { if o != name { return; } }
+    let pool = real_pool::<V::C>(rng, 40);
+    let lens: &[usize] = if a.thorough { &[0, 1, 2, 3, 31, 32, 33, 100] } else { &[0, 1, 2, 32] };
+    for &len in lens {
+        let bases = base_pattern(rng, &pool, 3, len);
+        let scalars = scalar_pattern::<Fr<V>>(rng, 4, len);
+        e_field::<V>(out, &bases, &scalars, if len <= 2 { 7 } else { 1 << (len % 3) });
+        if len <= 2 || a.thorough {
+            let bigs: Vec<Big<V>> = scalars.iter().map(|s| s.into_bigint()).collect();
+            e_big::<V>(out, &bases, &bigs, 1);
+        }
+    }
+    let bases = base_pattern(rng, &pool, 3, 2);
+    e_field::<V>(out, &bases, &scalar_pattern::<Fr<V>>(rng, 4, 3), 7);
+    e_field::<V>(out, &bases[..1], &scalar_pattern::<Fr<V>>(rng, 4, 0), 7);
+    random_histories::<V>(out, rng, &pool, if a.thorough { 30 } else { 3 }, if a.thorough { 10 } else { 4 });
 }
 
 fn digits_suite(out: &mut Out, rng: &mut Rng, thorough: bool) {
@@ -444,6 +551,10 @@ fn main() {
     toy::<Projective<T127R127>>(o, r, &a, "T127R127", 127, 2, if th { 4000 } else { 400 }, 0);
     toy::<Projective<T251R257>>(o, r, &a, "T251R257", 257, 2, if th { 4000 } else { 400 }, if th { 6 } else { 0 });
     toy::<Projective<T257R251X4>>(o, r, &a, "T257R251X4", 251, 2, if th { 4000 } else { 400 }, if th { 6 } else { 4 });
+    // the same through a group type with NEGATION_IS_CHEAP = false (public entry points run the plain-bucket method)
+    toy::<SlowG<T13R7>>(o, r, &a, "T13R7-slow", 7, 2, if th { 2401 } else { 600 }, if th { 7 } else { 5 });
+    toy::<SlowG<T13R13X2>>(o, r, &a, "T13R13X2-slow", 13, 2, if th { 4000 } else { 400 }, if th { 6 } else { 4 });
+    toy::<SlowG<T251R257>>(o, r, &a, "T251R257-slow", 257, 1, 300, if th { 6 } else { 4 });
     // more than one step of msm_chunks (step = 2^20)
     if th && a.only.as_deref().map_or(true, |s| s == "chunkscyc") {
         let pool = all_points::<T13R7>();
@@ -462,5 +573,6 @@ fn main() {
     use ark_test_curves::{bls12_381, secp256k1};
     real::<Projective<bls12_381::g1::Config>>(o, r, &a, "bls12_381_g1");
     real::<Projective<secp256k1::Config>>(o, r, &a, "secp256k1");
+    real_slow::<SlowG<bls12_381::g1::Config>>(o, r, &a, "bls12_381_g1-slow");
     out.flush();
 }
